@@ -314,6 +314,8 @@ const basePrelude = `(declare-datatypes ((Slice 0)) (((mk_slice (s_ref Int) (s_o
 (declare-fun str_len (Str) Int)
 (declare-fun str_lt (Str Str) Bool)
 (declare-fun str_cat (Str Str) Str)
+(assert (forall ((a Str) (b Str)) (! (and (=> (str_lt a b) (not (str_lt b a))) (or (str_lt a b) (= a b) (str_lt b a))) :pattern ((str_lt a b)))))
+(assert (forall ((a Str) (b Str) (c Str)) (! (=> (and (str_lt a b) (str_lt b c)) (str_lt a c)) :pattern ((str_lt a b) (str_lt b c)))))
 (assert (forall ((s Str)) (! (and (>= (str_len s) 0) (<= (str_len s) 281474976710656)) :pattern ((str_len s)))))
 (declare-sort Bytes 0)
 (declare-fun bytes_len (Bytes) Int)
